@@ -367,6 +367,32 @@ func famFrame(g *Gen) {
 		g.leafDistinct([]int{}, tr(), 1, 2),
 	}
 	pickT := func() int { return pool[g.intn(len(pool))] }
+	if g.chance(0.3) {
+		// gradient tensors handed out after one back-propagation stay what they were when a later back-propagation
+		// over a graph sharing the trunk adds to the same contexts (fan-out: several contributions per pass)
+		g.tag("kept-gradients-across-passes")
+		x := g.leafDistinct([]int{2, 2}, true, -1, 1)
+		c := g.leafDistinct([]int{2, 2}, false, -1, 1)
+		h, _ := g.do(Cmd{Op: OpBin, K: 8, T: x, U: T(c)})
+		h3, _ := g.do(Cmd{Op: OpScale, T: h, A: Dec{3, 0}})
+		h5, _ := g.do(Cmd{Op: OpScale, T: h, A: Dec{5, 0}})
+		h2, _ := g.do(Cmd{Op: OpScale, T: h, A: Dec{2, 0}})
+		l1a, _ := g.do(Cmd{Op: OpBin, K: 8, T: h3, U: T(h5)})
+		l1, _ := g.do(Cmd{Op: OpBin, K: 8, T: l1a, U: T(h2)})
+		l2, _ := g.do(Cmd{Op: OpScale, T: h, A: Dec{7, 0}})
+		g.do(Cmd{Op: OpBackprop, U: T(l1)})
+		gh, _ := g.do(Cmd{Op: OpGradOf, T: h})
+		gx, _ := g.do(Cmd{Op: OpGradOf, T: x})
+		g.do(Cmd{Op: OpBackprop, U: T(l2)})
+		for _, t := range []int{gh, gx, h, x} {
+			if g.isT(t) {
+				g.do(Cmd{Op: OpShape, T: t})
+				g.do(Cmd{Op: OpSlice, T: t, Ranges: nil})
+			}
+		}
+		g.do(Cmd{Op: OpGradOf, T: x})
+		pool = append(pool, x, h)
+	}
 	steps := 6 + g.intn(12)
 	for i := 0; i < steps; i++ {
 		x := pickT()
